@@ -33,12 +33,21 @@ CLAIMED = {
  "C06": ("eagerx", "exhaustive enumeration of source histories x starting indices x batch limits x intermediate write/re-import per compute method, each compared step by step with a from-scratch run on the real EagerVec",
          "For 64 catalogue entries (54 of the 64 public compute_* methods, several with more than one window) every source history of 2 (thorough: 3) steps over {append 1, append 2, truncate and regrow 1 or 2, no change}, every starting-index choice in {0, m/2, m} with m = min(first changed source index, first changed output index, previous length), batch limits {production, 1, 2, 3 elements} (through the cfg(anydb_verif) MAX_CACHE_SIZE cell) and {nothing, write, re-import, redundant second call} between calls is executed; after every call the stored result must equal the same method run from scratch.",
          "Methods not in the catalogue are listed in the evidence (lossy-resume float statistics, index-swapping transforms, filtered index-group variants). Float outputs: differences below 1e-6 relative are counted as rounding, not judged. Output format BytesVec; sources in-memory.", "5/C06"),
- "C10": ("rawx", "explicit-state BFS over region histories with a Reader held across operations (reader clause on one thread)",
-         "Reader clause only, without concurrency: all histories (bounded depth) of create / append / remove / flush / compact with a Reader opened at every possible point and kept; after every step the bytes it returns below its snapshot length must be bytes the region has held since the reader was created. The multi-thread isolation clause (schedules) is not decided by this check yet.",
-         "File pre-sized so that no growth happens while the reader is held (the documented same-thread growth deadlock is excluded). Recorded defect F13 printed as KNOWN-FINDING. Schedule exploration pending (chessx).", "5/C10"),
- "C12": ("rawx", "explicit-state BFS over allocation histories containing compact(), with the punch events (fd-keyed tap) checked against the layout",
-         "Sequential part: in every state reached (bounded depth; also from a prefilled state of four flushed regions) compact() must leave every live region's bytes, length, start and reserve and the file length unchanged, and every hole-punch it issues (reported by the cfg(anydb_verif) tap) must lie inside the unused tail of a reservation or inside a promoted free extent. Crash points inside compact() and interleavings with writers are not decided by this check yet.",
-         "Crash-image and schedule parts pending (crashx, chessx).", "5/C12"),
+ "C05": ("crashx", "explicit-state BFS over operation histories; at every event boundary (mmap write, set_len, sync begin/end, punch) every crash image of two write-back environments is materialised, opened with the real Database::open and judged",
+         "The cfg(anydb_verif) tap reports every mmap write (with the bytes), length change, sync and punch of both files; the harness keeps the volatile and durable contents and every version each page has had since that file's last sync. For every transition of the explored histories (two or three flushed regions, then appends in place / with relocation / with file growth, removals, renames, positional overwrites, flush, Region::flush, compact) and every crash point: environment (a) the OS wrote back any subset of dirty pages at any version (regions file: full product; data file: one page at a time around all-old and all-new, only pages inside a decodable slot's contents), environment (b) pages reach the disk only through the library's syncs (inside a sync: any subset of that file's dirty pages). Oracle part 1: image opens, recovered regions disjoint / aligned / inside the file, every region untouched since the last completed flush has its flushed name, length and bytes; part 2 (environment b): every region not overwritten in place equals, as a whole, its state at a completed flush or when the interrupted flush began.",
+         "4 KiB page writes atomic; set_len durable in order; punch = zero-page write. Tap completeness is checked after every step (modelled page cache == real files). Independence reduction for data pages argued in DESIGN 3.3.", "5/C05"),
+ "C09": ("chessx", "stateless exploration of all schedules (pre-emption bounded DFS) of one writer and one or two reader threads on the real vectors under a controlling scheduler",
+         "Programs: a writer that pushes and writes (raw append inside the reserve, with region growth, with file growth; compressed fast raw-page append, page-filling re-encode, multi-page) against readers on read-only and boxed clones doing len / collect_one / collect_range / fold. All schedules with at most 2 (thorough 3) pre-emptions at every lock request, data copy, length update, page-index update and shared-length store. Oracle per execution: every value read equals what the writer pushed at that index, sequences are prefixes, lengths seen by one reader never decrease, no panic, no deadlock.",
+         "Sequentially consistent scheduler (no weak-memory effects; the SharedLen acquire/release pair is not model-checked separately). Recorded defect F12 printed as KNOWN-FINDING.", "5/C09"),
+ "C10": ("rawx+chessx", "explicit-state BFS with a held Reader (reader clause) plus stateless schedule exploration of 2-3 threads working on distinct regions",
+         "Reader clause on one thread: all histories (bounded depth) with a Reader opened at every point and kept; its bytes must always be bytes the region held since its creation. Isolation clause: programs of 2-3 threads, each with its own region and a private model, doing write in reserve / relocating write / growth with file growth / in-place growth of the last region / truncate / create / remove / rename and a Reader read, also against flush, Region::flush and compact; all schedules with at most 1-2 (thorough 2-3) pre-emptions. After each of its own operations a thread compares its region with its model; at the end bystander regions are unchanged and the C02 extent invariants hold.",
+         "Bounded programs and pre-emptions as listed in the evidence; the quick tier may stop at its time cap (reported). Recorded defects F11, F13, F23 printed as KNOWN-FINDING.", "5/C10"),
+ "C11": ("chessx", "stateless exploration of all schedules (pre-emption bounded DFS) of pairs and triples of library calls under a controlling scheduler whose lock enabledness is read from the real parking_lot locks, with writer preference modelled as an explicit enqueue transition",
+         "Catalogue of 15 operations, each with the prepared state that selects its locking path (write in reserve, relocation, file growth, in-place growth of the last region, truncate, rename, remove, create, Region::flush, flush, compact, background compact + sync_bg_tasks, reader, disk_usage, set_min_regions) plus vector writer/reader programs. Quick: all 120 unordered pairs and selected triples with <=1 pre-emption (complete), two three-party shapes with <=2 pre-emptions under an execution cap. Thorough: all pairs and the heavy triples with <=2, all triples with a writer-queuing third operation with <=1, pairs again under a reader-preferring lock model. Verdict: a state with an unfinished thread and no enabled thread is a deadlock; the step horizon is never reached.",
+         "Scheduling points at lock requests (layout, regions, mmap, file, region metadata, page index), spawn and join only — sufficient for deadlocks; leaf locks (dirty bounds, background-task list, header) are not modelled. Keeping a Reader across another call on the same thread (documented misuse) is not in the catalogue.", "5/C11"),
+ "C12": ("rawx+crashx+chessx", "explicit-state BFS over allocation histories containing compact() with punch events checked against the layout; crash images inside compact(); schedule exploration of compact() against writers",
+         "Sequential: in every reached state compact() leaves every live region's bytes, length, start, reserve and the file length unchanged and only punches unused reservation tails or promoted free extents. Crash: every crash point inside compact() with the C05 oracles, and at every punch no regions-file image that may be on disk references the punched bytes. Schedules: compact() against a thread that appends into its reserve, relocates, truncates, removes or creates, all schedules with <=2 (thorough 3) pre-emptions, each writer comparing its region with its private model.",
+         "Bounds as listed in the evidence. Recorded defect F11 printed as KNOWN-FINDING.", "5/C12"),
  "C14": ("importx", "exhaustive enumeration of the import configuration cross product on the real code",
          "All 10 925 combinations of stored format x requested format x stored version x requested version x creating entry point x reopening entry point x contents (empty, 3 values, two pages, raw with a deleted slot) x same process / database reopened, plus blocked-removal variants (a handle on the data region held during a forced re-import). Oracle as the statement: matching => contents back through either entry point; mismatch => plain import fails with a version/format error and regions and bytes are untouched, forced import returns a vector that is empty and behaves as empty.",
          "Lock and I/O errors are not injected. Recorded defect F2 (entry points disagree about the stored version) covers all mixed-entry-point cases and is printed as KNOWN-FINDING.", "5/C14"),
@@ -56,7 +65,7 @@ CLAIMED = {
          "Bounded as C01. Invariants read internal layout state through cfg(anydb_verif) accessors.", "5/C02"),
 }
 
-NOT_YET = "engine for this property is not built yet (work in progress, see DESIGN.md section 8); not claimed until its check runs"
+NOT_YET = "engine for this property (openx: handle-lifecycle histories with in-process and child-process open attempts) is not built yet; not claimed until its check runs"
 
 def main():
     checks=[]
@@ -88,6 +97,8 @@ def main():
       },
       "engines": [
         {"name":"rawx","path":"harness/mc/src/rawx.rs","serves_properties":["C01","C02","C10","C12","C13"],"kind_free_text":"explicit-state BFS over region-operation histories on the real rawdb (worker processes re-execute histories; parent owns frontier and seen-set)"},
+        {"name":"crashx","path":"harness/mc/src/crashx.rs","serves_properties":["C05","C12"],"kind_free_text":"crash-image enumeration on top of the rawx history exploration"},
+        {"name":"chessx","path":"harness/mc/src/chessx.rs","serves_properties":["C09","C10","C11","C12"],"kind_free_text":"CHESS-style controlled scheduler (harness/mc/src/chess.rs) + pre-emption bounded DFS over schedules of real threads"},
         {"name":"importx","path":"harness/mc/src/importx.rs","serves_properties":["C14"],"kind_free_text":"complete configuration cross product"},
         {"name":"lazyx","path":"harness/mc/src/lazyx.rs","serves_properties":["C15"],"kind_free_text":"exhaustive small-scope enumeration of lazy vectors against formulas"},
         {"name":"codecx","path":"harness/mc/src/codecx.rs","serves_properties":["C17"],"kind_free_text":"boundary / truncation / mutation enumeration of codecs with counting allocator"},
